@@ -18,6 +18,13 @@ Proof.
   destruct (half_01 v) as [Hv|Hv], (half_01 w) as [Hw|Hw]; rewrite Hv, Hw; simpl; lia.
 Qed.
 
+(* 12 o'clock itself sorts last in a table row: nothing has a strictly smaller key alpha *)
+Lemma ang_lt_twelve_last : forall y w, 0 < y -> ang_lt w (0, y) = false.
+Proof.
+  intros y [xw yw] Hy. unfold ang_lt, half. simpl.
+  destruct (Z.ltb_spec 0 y), (Z.ltb_spec 0 (- xw)), (Z.eqb_spec (- xw) 0), (Z.ltb_spec 0 yw); simpl; try lia; try nia.
+Qed.
+
 (* "alpha a >= alpha b": b does not sort strictly before... i.e. no ascent from a to b *)
 Definition desc_ok (key : nat -> vec) (a b : nat) : Prop := ang_lt (key a) (key b) = false.
 
